@@ -66,6 +66,34 @@ class TUInfo:
             self._entry[key] = frozenset()
             return self._entry[key]
         res = None
+        if fn.kind == 'lambda':
+            # a closure runs where it is invoked: inside a library helper that received it (`withLock(mutex, [&]{...})`), or inside a standard
+            # algorithm called by the function that wrote it. What is held there, expressed in the closure's own frame (its `this` is the
+            # enclosing object): locks of the helper on its parameters are the arguments of the helper's call; plus what the writer holds
+            sites = self.closure_sites(fn)
+            if sites:
+                for (P, cn, g, inv) in sites:
+                    sp = self.scopes(P)
+                    held = set(sp.held_must(P.pos(cn), 'lock') if must else sp.held_may(P.pos(cn), 'lock'))
+                    held |= set(self.entry_locks(P, must, _stack | {fn.id}))
+                    if g is not None:
+                        sg = self.scopes(g)
+                        gh = set(sg.held_must(g.pos(inv), 'lock') if must else sg.held_may(g.pos(inv), 'lock'))
+                        pidx = {pp['id']: i for i, pp in enumerate(g.params)}
+                        args = P.call_args(cn)
+                        for m in gh:
+                            vid = root_var_id(m)
+                            if vid is not None and vid in pidx and pidx[vid] < len(args):
+                                held.add(tuple(path(P, args[pidx[vid]])) + tuple(m[1:]))
+                    if res is None:
+                        res = set(held)
+                    elif must:
+                        res &= held
+                    else:
+                        res |= held
+                res = frozenset(res or ())
+                self._entry[key] = res
+                return res
         for (g, n) in callers:
             si = self.scopes(g)
             pos = g.pos(n)
@@ -88,6 +116,40 @@ class TUInfo:
         res = frozenset(res or ())
         self._entry[key] = res
         return res
+
+    def closure_sites(self, fn):
+        """Where the closure fn runs: [(writer function P, call node in P that receives the lambda expression, library helper g with a body
+        (or None for a standard algorithm), node in g that invokes its closure parameter)]. Empty when the lambda is stored or its use
+        cannot be followed."""
+        P = fn.parent_fn()
+        if P is None:
+            return []
+        lam = [n for n, o in P.nodes.items() if o['cls'] == 'LambdaExpr' and o.get('fid') == fn.id]
+        if len(lam) != 1:
+            return []
+        out = []
+        for cn in P.calls():
+            args = P.call_args(cn)
+            ks = [i for i, a in enumerate(args) if P.value_source(a) == lam[0]]
+            if not ks:
+                continue
+            cal = P.callee(cn) or {}
+            from ..effects import STD_ALGORITHMS_WITH_CALLABLE
+            if cal.get('sys') and short(cal.get('key', '')) in STD_ALGORITHMS_WITH_CALLABLE:
+                out.append((P, cn, None, None))
+                continue
+            gs = P.callee_fns(cn)
+            if len(gs) != 1 or ks[0] >= len(gs[0].params):
+                return []
+            g = gs[0]
+            fid = g.params[ks[0]]['id']
+            inv = [m for m in g.calls() if g.nodes[m]['cls'] == 'CXXOperatorCallExpr' and g.nodes[m].get('op') == '()' and g.nodes[m].get('obj') is not None
+                   and root_var_id(path(g, g.value_source(g.nodes[m]['obj']), resolve_refs=False)) == fid]
+            if not inv:
+                return []
+            for m in inv:
+                out.append((P, cn, g, m))
+        return out
 
     def held_names(self, fn, pos, must=True):
         si = self.scopes(fn)
